@@ -71,10 +71,12 @@ def region(dsc, rows, vp, lines, double=False, model=None, obligation="", **_):
     vp = int(model.get("vp", vp))
     rows = int(model.get("rows", rows))
     lines = int(model.get("n", lines))
+  if dsc in ("1", "2"):
+    rows = 23
   lines = max(1, min(lines, 50))
   nl = bytes([S.NEWLINE]) * (2 if double else 1)
-  tf = (b"\x0d" if double else b"") + nl.join(b"L" for _ in range(lines))
-  data = R.stl_file([R.tti_block(vp=vp & 0xFF, tf=tf[:S.TF_SIZE])], dsc=dsc.encode(), mnr=b"%02d" % (rows % 100))
+  tf = ((b"\x0d" if double else b"") + nl.join(b"L" for _ in range(lines)))[:S.TF_SIZE]
+  data = R.stl_file([R.tti_block(vp=vp & 0xFF, tf=tf)], dsc=dsc.encode(), mnr=b"%02d" % (rows % 100))
   cfg = {"max_row_count": rows}
   out = R.run_reader(data, cfg)
   if out[0] != "ok":
@@ -82,5 +84,10 @@ def region(dsc, rows, vp, lines, double=False, model=None, obligation="", **_):
   if not out[1]:
     return False, "no paragraph"
   x, y, w, h, da = out[1][0]["region"]
-  bad = not (5 - 1e-9 <= x and x + w <= 95 + 1e-9 and 10 - 1e-9 <= y and y + h <= 90 + 1e-9 and w >= 0 and h >= 0)
-  return bad, f"VP {vp}, {lines} lines{' double height' if double else ''}, {rows} rows: region origin ({x}, {y}) extent ({w}, {h}) displayAlign {da}; safe area is 5..95 x 10..90"
+  lo = hi = lines * (2 if double else 1)
+  text = (f"VP {vp}, {lines} lines{' double height' if double else ''}, {rows} rows: region origin ({x}, {y}) extent ({w}, {h}) "
+          f"displayAlign {da}; safe area is 5..95 x 10..90")
+  if not (1 <= vp and vp + hi - 1 <= rows):
+    return False, text + "; outside the stated preconditions (1 <= VP, VP + rows of text - 1 <= row count)"
+  bad = S.region_violations(x, y, w, h, da, vp, (lo, hi), [rows])
+  return bool(bad), text + ("; " + "; ".join(b[1] for b in bad) if bad else "; region rule holds")
